@@ -25,7 +25,10 @@ MANIFEST = dict(
          'file (Swift and Objective-C lexers: nested comments, strings with escapes and interpolation, character '
          'literals, balanced brackets, conditional directives closed), exactly-once / coverage / closure on the real '
          'output against an independent reading of the IR, agreement of header and implementation selectors of every '
-         'Objective-C class; inputs: random specs, hand seeds, and a deterministic grid of every type shape in every '
+         'Objective-C class, every generated class an Objective-C header names declared (@class / @interface) or '
+         'imported by that header (classes named only below a map, and in obj_c_types below a nullable list element, '
+         'are counted and not judged: open findings), each top-level Swift type declared once over the user and the '
+         '--auth-type app pass of swift_client into one folder; inputs: random specs, hand seeds, and a deterministic grid of every type shape in every '
          'position under an option grid (auth types, obj_c_types -e, three sets of client tables).',
     note='Trusted: Lean kernel, translator, the scanners and generators of harness/suites/decl_swift.py, jinja2. Not '
          'modelled: bodies of Objective-C .m files (names only), documentation comments, validators, literal default '
